@@ -57,7 +57,7 @@ def boolOK (L : Nat) (dec : Char) : Bool :=
   !cfg.trueName.isEmpty && cfg.trueName.all (fun c => cfg.cc.alpha c && !isDigit c) &&
   !cfg.falseName.isEmpty && cfg.falseName.all (fun c => cfg.cc.alpha c && !isDigit c) &&
   upperStr cfg cfg.trueName == cfg.trueName && upperStr cfg cfg.falseName == cfg.falseName &&
-  cfg.trueName != cfg.falseName
+  cfg.trueName != cfg.falseName && !isValidColumn cfg.trueName && !isValidColumn cfg.falseName
 
 theorem boolTables_ok : [0, 1, 2, 3, 4].all (fun L => boolOK L '.' && boolOK L ',') = true := by
   decide +kernel
@@ -76,7 +76,7 @@ theorem cfgOf_ok (L : Nat) (hL : L < 5) (dec : Char) (hdec : dec = '.' ∨ dec =
     · exact hbool.2
   simp only [boolOK, Bool.and_eq_true, Bool.not_eq_true', List.isEmpty_eq_false_iff, beq_iff_eq,
     bne_iff_ne, ne_eq] at hb
-  obtain ⟨⟨⟨⟨⟨⟨b1, b2⟩, b3⟩, b4⟩, b5⟩, b6⟩, b7⟩ := hb
+  obtain ⟨⟨⟨⟨⟨⟨⟨⟨b1, b2⟩, b3⟩, b4⟩, b5⟩, b6⟩, b7⟩, b8⟩, b9⟩ := hb
   exact {
     a1 := rfl
     decimal := hdec
@@ -130,6 +130,8 @@ theorem cfgOf_ok (L : Nat) (hL : L < 5) (dec : Char) (hdec : dec = '.' ∨ dec =
     false_alpha := ⟨b3, b4⟩
     true_upper := b5
     false_upper := b6
-    true_ne_false := b7 }
+    true_ne_false := b7
+    true_not_col := b8
+    false_not_col := b9 }
 
 end IronCalc.Formula
